@@ -151,20 +151,22 @@ type foundViolation struct {
 }
 
 type workerOut struct {
-	Runs       int64             `json:"runs"`
-	Nontrivial int64             `json:"nontrivial"`
-	Sigs       []uint64          `json:"sigs"`
-	States     []uint64          `json:"states"`
-	Counters   map[string]int64  `json:"counters"`
-	SimTicks   int64             `json:"sim_ticks"`
-	Events     int64             `json:"events"`
-	Samples    []sample          `json:"samples"`
-	Violations []foundViolation  `json:"violations"`
-	Known      map[string]int64  `json:"known"`
-	Infra      []string          `json:"infra"`
-	PartRuns   map[string]int64  `json:"part_runs"`
-	WallS      float64           `json:"wall_s"`
-	Draws      int64             `json:"draws"`
+	Runs       int64            `json:"runs"`
+	Nontrivial int64            `json:"nontrivial"`
+	Sigs       []uint64         `json:"sigs"`
+	States     []uint64         `json:"states"`
+	Counters   map[string]int64 `json:"counters"`
+	SimTicks   int64            `json:"sim_ticks"`
+	Events     int64            `json:"events"`
+	Samples    []sample         `json:"samples"`
+	Violations []foundViolation `json:"violations"`
+	Known      map[string]int64 `json:"known"`
+	Infra      []string         `json:"infra"`
+	PartRuns   map[string]int64 `json:"part_runs"`
+	WallS      float64          `json:"wall_s"`
+	Draws      int64            `json:"draws"`
+	Recycle    bool             `json:"recycle"` // the worker stopped early to shed memory; start another one
+	NextCount  []uint64         `json:"next_count"`
 }
 
 // KnownFinding is one entry of known_findings.json.
@@ -393,7 +395,7 @@ func parent(prop, tier string) int {
 	_ = os.MkdirAll(filepath.Join(VerifDir, "replays"), 0o755)
 	_ = os.MkdirAll(filepath.Join(VerifDir, "evidence"), 0o755)
 	type wres struct {
-		out  workerOut
+		outs []workerOut
 		err  error
 		code int
 	}
@@ -401,29 +403,54 @@ func parent(prop, tier string) int {
 	done := make(chan int, nw)
 	for w := 0; w < nw; w++ {
 		go func(w int) {
-			outFile := filepath.Join(workDir, fmt.Sprintf("w%d.json", w))
-			cmd := exec.Command(os.Args[0], "worker", prop, tier, strconv.FormatUint(seed, 10),
-				strconv.Itoa(w), strconv.Itoa(nw), strconv.FormatInt(budget, 10), outFile)
-			cmd.Stderr = os.Stderr
-			cmd.Stdout = os.Stderr
-			cmd.Env = append(os.Environ(), "GOMAXPROCS=1")
-			err := cmd.Run()
-			results[w].err = err
-			if err != nil {
-				if ee, ok := err.(*exec.ExitError); ok {
-					results[w].code = ee.ExitCode()
-				} else {
-					results[w].code = 2
+			defer func() { done <- w }()
+			endAt := start.Add(time.Duration(budget) * time.Second)
+			startCount := ""
+			for gen := 0; ; gen++ {
+				left := int64(time.Until(endAt).Seconds())
+				if gen > 0 && left < 2 {
+					return
 				}
+				if left < 1 {
+					left = 1
+				}
+				outFile := filepath.Join(workDir, fmt.Sprintf("w%d.json", w))
+				_ = os.Remove(outFile)
+				cmd := exec.Command(os.Args[0], "worker", prop, tier, strconv.FormatUint(seed, 10),
+					strconv.Itoa(w), strconv.Itoa(nw), strconv.FormatInt(left, 10), outFile)
+				cmd.Stderr = os.Stderr
+				cmd.Stdout = os.Stderr
+				cmd.Env = append(os.Environ(), "GOMAXPROCS=1", "VERIF_START_COUNT="+startCount)
+				err := cmd.Run()
+				var o workerOut
+				b, rerr := os.ReadFile(outFile)
+				if rerr == nil {
+					_ = json.Unmarshal(b, &o)
+				}
+				results[w].outs = append(results[w].outs, o)
+				if err != nil {
+					results[w].err = err
+					if ee, ok := err.(*exec.ExitError); ok {
+						results[w].code = ee.ExitCode()
+					} else {
+						results[w].code = 2
+					}
+					return
+				}
+				if rerr != nil {
+					results[w].err = rerr
+					results[w].code = 2
+					return
+				}
+				if !o.Recycle || len(o.Violations) > 0 {
+					return
+				}
+				parts := make([]string, len(o.NextCount))
+				for i, c := range o.NextCount {
+					parts[i] = strconv.FormatUint(c, 10)
+				}
+				startCount = strings.Join(parts, ",")
 			}
-			b, rerr := os.ReadFile(outFile)
-			if rerr == nil {
-				_ = json.Unmarshal(b, &results[w].out)
-			} else if err == nil {
-				results[w].err = rerr
-				results[w].code = 2
-			}
-			done <- w
 		}(w)
 	}
 	for i := 0; i < nw; i++ {
@@ -437,42 +464,44 @@ func parent(prop, tier string) int {
 	for w := range results {
 		r := results[w]
 		if r.err != nil {
-			fmt.Fprintf(os.Stderr, "worker %d failed: %v (exit %d)\n", w, r.err, r.code)
+			cur, _ := os.ReadFile(filepath.Join(workDir, fmt.Sprintf("w%d.json.cur", w)))
+			fmt.Fprintf(os.Stderr, "worker %d failed: %v (exit %d) while running: %s\n", w, r.err, r.code, string(cur))
 			infra = true
 		}
-		o := r.out
-		tot.Runs += o.Runs
-		tot.Nontrivial += o.Nontrivial
-		tot.SimTicks += o.SimTicks
-		tot.Events += o.Events
-		tot.Draws += o.Draws
-		for k, v := range o.Counters {
-			tot.Counters[k] += v
-		}
-		for k, v := range o.Known {
-			tot.Known[k] += v
-		}
-		for k, v := range o.PartRuns {
-			tot.PartRuns[k] += v
-		}
-		for _, s := range o.Sigs {
-			sigs[s] = struct{}{}
-		}
-		for _, s := range o.States {
-			states[s] = struct{}{}
-		}
-		if len(tot.Samples) < 12 {
-			for _, s := range o.Samples {
-				if len(tot.Samples) < 12 {
-					tot.Samples = append(tot.Samples, s)
+		for _, o := range r.outs {
+			tot.Runs += o.Runs
+			tot.Nontrivial += o.Nontrivial
+			tot.SimTicks += o.SimTicks
+			tot.Events += o.Events
+			tot.Draws += o.Draws
+			for k, v := range o.Counters {
+				tot.Counters[k] += v
+			}
+			for k, v := range o.Known {
+				tot.Known[k] += v
+			}
+			for k, v := range o.PartRuns {
+				tot.PartRuns[k] += v
+			}
+			for _, s := range o.Sigs {
+				sigs[s] = struct{}{}
+			}
+			for _, s := range o.States {
+				states[s] = struct{}{}
+			}
+			if len(tot.Samples) < 12 {
+				for _, s := range o.Samples {
+					if len(tot.Samples) < 12 {
+						tot.Samples = append(tot.Samples, s)
+					}
 				}
 			}
-		}
-		tot.Violations = append(tot.Violations, o.Violations...)
-		if len(o.Infra) > 0 {
-			infra = true
-			for _, m := range o.Infra {
-				fmt.Fprintf(os.Stderr, "INFRA worker %d: %s\n", w, m)
+			tot.Violations = append(tot.Violations, o.Violations...)
+			if len(o.Infra) > 0 {
+				infra = true
+				for _, m := range o.Infra {
+					fmt.Fprintf(os.Stderr, "INFRA worker %d: %s\n", w, m)
+				}
 			}
 		}
 	}
@@ -542,26 +571,26 @@ func parent(prop, tier string) int {
 		"violations":  unknownV,
 		"assumptions": c.Assumptions,
 		"coverage": map[string]interface{}{
-			"evaluations":         tot.Runs,
-			"distinct_nontrivial": len(sigs),
-			"rule":                strings.Join(uniq(rules), " | "),
-			"samples":             tot.Samples,
-			"runs_per_hour":       int64(float64(tot.Runs) / wall * 3600),
-			"nontrivial_runs":     tot.Nontrivial,
+			"evaluations":              tot.Runs,
+			"distinct_nontrivial":      len(sigs),
+			"rule":                     strings.Join(uniq(rules), " | "),
+			"samples":                  tot.Samples,
+			"runs_per_hour":            int64(float64(tot.Runs) / wall * 3600),
+			"nontrivial_runs":          tot.Nontrivial,
 			"distinct_abstract_states": len(states),
-			"simulated_ticks":     tot.SimTicks,
-			"simulated_events":    tot.Events,
-			"choice_draws":        tot.Draws,
-			"faults_fired":        faults,
-			"probes_hit":          probes,
-			"event_counts":        evs,
-			"other_counters":      other,
-			"parts":               partDesc,
-			"components_real":     keys(realSet),
-			"components_stub":     keys(stubSet),
-			"known_findings_hit":  tot.Known,
-			"workers":             nw,
-			"budget_s":            budget,
+			"simulated_ticks":          tot.SimTicks,
+			"simulated_events":         tot.Events,
+			"choice_draws":             tot.Draws,
+			"faults_fired":             faults,
+			"probes_hit":               probes,
+			"event_counts":             evs,
+			"other_counters":           other,
+			"parts":                    partDesc,
+			"components_real":          keys(realSet),
+			"components_stub":          keys(stubSet),
+			"known_findings_hit":       tot.Known,
+			"workers":                  nw,
+			"budget_s":                 budget,
 		},
 	}
 	if c.Assumptions == nil {
@@ -632,6 +661,14 @@ func worker(args []string) int {
 	deadline := start.Add(time.Duration(budget) * time.Second)
 	spent := make([]time.Duration, len(parts))
 	count := make([]uint64, len(parts))
+	if sc := os.Getenv("VERIF_START_COUNT"); sc != "" {
+		for i, f := range strings.Split(sc, ",") {
+			if i < len(count) {
+				count[i], _ = strconv.ParseUint(f, 10, 64)
+			}
+		}
+	}
+	memLimit := uint64(envInt("VERIF_WORKER_MEM_MB", 1500)) << 20
 	doneParts := make([]bool, len(parts))
 	sigs := map[uint64]struct{}{}
 	states := map[uint64]struct{}{}
@@ -649,6 +686,15 @@ func worker(args []string) int {
 		_ = os.WriteFile(outFile, b, 0o644)
 	}
 	for time.Now().Before(deadline) {
+		if out.Runs%8 == 7 {
+			var ms runtime.MemStats
+			runtime.ReadMemStats(&ms)
+			if ms.HeapInuse+ms.StackInuse > memLimit {
+				out.Recycle = true
+				out.NextCount = count
+				break
+			}
+		}
 		// pick the part with the smallest spent/share
 		best := -1
 		var bestScore float64
@@ -685,6 +731,7 @@ func worker(args []string) int {
 		runSeed := choice.Mix(seed, uint64(best), idx)
 		params := withIndex(p.Params, idx)
 		src := choice.FromSeed(runSeed)
+		_ = os.WriteFile(outFile+".cur", []byte(fmt.Sprintf("scenario=%s params=%s run_seed=%d", p.Scenario, ParamString(params), runSeed)), 0o644)
 		t0 := time.Now()
 		res, infra := ExecRun(sc, params, prop, src, false)
 		spent[best] += time.Since(t0)
